@@ -1,0 +1,59 @@
+//go:build verif
+
+// Package verifhook provides scheduling and fault-injection seams for the
+// deterministic simulation harness. This is the `verif` build: every function
+// forwards to a function variable that the harness may set. With the
+// variables left nil the behaviour is identical to the build without the tag.
+package verifhook
+
+import "context"
+
+// Enabled reports if the hooks are compiled in.
+const Enabled = true
+
+var (
+	StartFn      func(ctx context.Context, role, name string)
+	YieldFn      func(ctx context.Context, point string)
+	InWriteTxnFn func(ctx context.Context, point string)
+	PickFn       func(point string, n int) int
+	ExpiredFn    func(point string) bool
+)
+
+// Start marks the start of a long-running goroutine with a given role.
+func Start(ctx context.Context, role, name string) {
+	if f := StartFn; f != nil {
+		f(ctx, role, name)
+	}
+}
+
+// Yield marks a point where a simulated scheduler may suspend the caller.
+func Yield(ctx context.Context, point string) {
+	if f := YieldFn; f != nil {
+		f(ctx, point)
+	}
+}
+
+// InWriteTxn marks a point inside an LMDB write transaction. The caller is
+// never suspended here.
+func InWriteTxn(ctx context.Context, point string) {
+	if f := InWriteTxnFn; f != nil {
+		f(ctx, point)
+	}
+}
+
+// Pick lets the simulated scheduler make a choice in [0,n). It returns -1 if
+// no choice was made.
+func Pick(point string, n int) int {
+	if f := PickFn; f != nil {
+		return f(point, n)
+	}
+	return -1
+}
+
+// Expired lets the simulated scheduler declare a deadline as expired early.
+func Expired(point string) bool {
+	if f := ExpiredFn; f != nil {
+		return f(point)
+	}
+	return false
+}
